@@ -514,7 +514,12 @@ def oracle(ctx, scale):
               "tric": [[], ["Inversion"], ["TimeReversal"]]}
     for it in range(N):
         nw = rng.choice([1, 2, 3, 4, 5, 6, 7])
-        nR = rng.choice([1, 2, 3, 5, 8, 13, 15, 16, 20]) if nw <= 4 else rng.choice([1, 2, 3, 6])
+        nR = rng.choice([1, 2, 3, 5, 8, 13, 15, 16, 20, 30]) if nw <= 4 else rng.choice([1, 2, 3, 6])
+        if it < 4:
+            # the text formats write the R-vector degeneracies 15 per line: the boundary sizes always run first,
+            # in both tiers (exact multiples of 15 and their neighbours), on small systems
+            nR = (15, 30, 14, 16)[it]
+            nw = (2, 1, 3, 2)[it]
         Rs = rand_Rs(rng, nR)
         kind = rng.choice(["cubic", "ortho", "hex", "tric"])
         L = rand_lattice(nprng, kind)
